@@ -21,3 +21,199 @@ Print Assumptions at_axis_operations_never_read_out_of_bounds.
 Theorem valid_layouts_can_always_be_read : forall c p, Valid p c -> chars_ok c = true -> exists vs, to_list c = Ok vs.
 Proof. exact valid_to_list_total_partial. Qed.
 Print Assumptions valid_layouts_can_always_be_read.
+
+(* ================================================================================================
+   Memory safety of ALL the modelled operations (proofs in Proofs_Safety.v, Proofs_Safety2.v, Proofs_Safety3.v,
+   Proofs_Safety4.v, Proofs_SafetyAll.v).  [clean r]: the run [r] ends in a result or in the ordinary refusal
+   [Err EValue]; equivalently r <> Err EOob /\ r <> Err EFuel.
+   ================================================================================================ *)
+From AwkV Require Import Base Ops_Flatten Ops_Option Ops_Reduce Ops_Sort Ops_Getitem Ops_Fields
+                         Proofs_Reduce Proofs_SortRef2 Proofs_Fillna Proofs_FlattenB Proofs_Closure6
+                         Proofs_Safety Proofs_Safety2 Proofs_Safety3 Proofs_Safety4 Proofs_Safety5 Proofs_SafetyAll.
+From AwkV Require Import Proofs_Getitem3 Proofs_Getitem7.
+
+Theorem clean_means_no_oob_no_fuel : forall (A : Type) (r : res A), clean r <-> r <> Err EOob /\ r <> Err EFuel.
+Proof. exact (@clean_iff). Qed.
+Print Assumptions clean_means_no_oob_no_fuel.
+
+(* the at-axis descent performs no buffer access of its own and is structural: on EVERY layout (valid or not, unions
+   included) it is as clean as the action [g] at the axis and the answer [unk] below an EmptyArray *)
+Theorem at_axis_descent_is_as_clean_as_its_action : forall g unk str_ok,
+  (forall p c, clean (g p c)) -> clean unk -> forall c axis, clean (model_ax g unk str_ok c axis).
+Proof. exact model_ax_clean. Qed.
+Print Assumptions at_axis_descent_is_as_clean_as_its_action.
+
+(* num, local_index, pad_none (both variants), combinations (every n, with / without replacement), every axis:
+   NO hypothesis on the layout at all (extends at_axis_operations_never_read_out_of_bounds above) *)
+Theorem at_axis_operations_clean_on_any_layout : forall c,
+  (forall axis, clean (num_model axis c)) /\
+  (forall axis, clean (localindex_model axis c)) /\
+  (forall target axis, clean (rpad_model target axis c)) /\
+  (forall target axis, clean (rpadclip_model target axis c)) /\
+  (forall n repl axis, clean (comb_model n repl axis c)).
+Proof. exact at_axis_ops_clean_any_layout. Qed.
+Print Assumptions at_axis_operations_clean_on_any_layout.
+
+Theorem combinations_never_reads_out_of_bounds : forall n repl axis c,
+  comb_model n repl axis c <> Err EOob /\ comb_model n repl axis c <> Err EFuel.
+Proof. exact combinations_never_out_of_bounds. Qed.
+Print Assumptions combinations_never_reads_out_of_bounds.
+
+(* flatten, every axis, EVERY valid layout that has a value (unions, strings, n-d leaves, EmptyArray included) *)
+Theorem flatten_never_reads_out_of_bounds : forall axis c vs,
+  Valid None c -> to_list c = Ok vs -> flatten_model axis c <> Err EOob /\ flatten_model axis c <> Err EFuel.
+Proof. exact flatten_never_out_of_bounds. Qed.
+Print Assumptions flatten_never_reads_out_of_bounds.
+Theorem flatten_never_reads_out_of_bounds_chars : forall axis c,
+  Valid None c -> chars_ok c = true -> flatten_model axis c <> Err EOob /\ flatten_model axis c <> Err EFuel.
+Proof. exact flatten_never_out_of_bounds_chars. Qed.
+Print Assumptions flatten_never_reads_out_of_bounds_chars.
+
+(* fill_none: every valid layout (unions included), any value array *)
+Theorem fillna_never_reads_out_of_bounds : forall value c,
+  Valid None c -> fillna_model value c <> Err EOob /\ fillna_model value c <> Err EFuel.
+Proof. exact fillna_never_out_of_bounds. Qed.
+Print Assumptions fillna_never_reads_out_of_bounds.
+
+(* record fields: projection of one field / of several fields on every valid layout; setfield on every layout *)
+Theorem field_never_reads_out_of_bounds : forall k c vs,
+  Valid None c -> to_list c = Ok vs -> field_content k c <> Err EOob /\ field_content k c <> Err EFuel.
+Proof. exact field_never_out_of_bounds. Qed.
+Print Assumptions field_never_reads_out_of_bounds.
+Theorem fields_never_reads_out_of_bounds : forall ks c,
+  Valid None c -> fields_content ks c <> Err EOob /\ fields_content ks c <> Err EFuel.
+Proof. exact fields_never_out_of_bounds. Qed.
+Print Assumptions fields_never_reads_out_of_bounds.
+Theorem setfield_clean_on_any_layout : forall k c what, clean (setfield_model k c what).
+Proof. exact setfield_clean_any_layout. Qed.
+Print Assumptions setfield_clean_on_any_layout.
+
+(* reducers: every reducer, axis, mask_identity, keepdims, every valid layout (unions, strings, records included).
+   _partial: [fin c] (finite leaf data) -- the model deliberately answers [Err EOob] when it meets NaN / inf, which
+   it does not cover (Ops_Reduce.datum_int; Example Proofs_Safety.reduce_nan_is_unmodelled) *)
+Theorem reduce_never_reads_out_of_bounds_partial : forall r axis mask keepdims c vs,
+  Valid None c -> fin c = true -> to_list c = Ok vs ->
+  reduce_model r axis mask keepdims c <> Err EOob /\ reduce_model r axis mask keepdims c <> Err EFuel.
+Proof. exact reduce_never_out_of_bounds_partial. Qed.
+Print Assumptions reduce_never_reads_out_of_bounds_partial.
+
+(* sort / argsort, both directions, EVERY axis, every valid layout with a value.  [Err EFuel] is by design the model's
+   way of declining a legal non-innermost axis ([sort_modelled ... = false]); the model has no fuel *)
+Theorem sort_never_reads_out_of_bounds : forall asc argsort axis c vs,
+  Valid None c -> to_list c = Ok vs ->
+  sort_model asc argsort axis c <> Err EOob /\
+  (sort_modelled asc argsort axis c = true -> sort_model asc argsort axis c <> Err EFuel).
+Proof. exact sort_never_out_of_bounds. Qed.
+Print Assumptions sort_never_reads_out_of_bounds.
+Theorem sort_on_innermost_axis_never_declines : forall asc argsort axis c vs,
+  Valid None c -> sfrag c = true -> to_list c = Ok vs -> innermost axis (type_of c) = true ->
+  sort_model asc argsort axis c <> Err EOob /\ sort_model asc argsort axis c <> Err EFuel.
+Proof. exact sort_innermost_never_declines. Qed.
+Print Assumptions sort_on_innermost_axis_never_declines.
+
+(* slicing.  (1) integer / range / newaxis / ellipsis / field / fields items, any number in any order, on the wide
+   fragment of the closure theorem (valid, no string nodes, option-type / indexed nodes not nested in one another;
+   unions, n-d leaves, records anywhere), no side condition: never an out-of-bounds access.  ([Err EFuel] stays
+   possible: the model's designed answer on a UnionArray, and the genuine out-of-fuel of an ellipsis on very deep
+   layouts, Props_C01.) *)
+Theorem getitem_never_reads_out_of_bounds_wide : forall items c,
+  forallb item_ok items = true -> Valid None c -> nostr c = true -> gi_frag c = true ->
+  getitem_model items c <> Err EOob.
+Proof. exact Proofs_SafetyAll.getitem_never_out_of_bounds_wide. Qed.
+Print Assumptions getitem_never_reads_out_of_bounds_wide.
+(* (1') ALL item kinds, integer arrays included (any number of them, anywhere), same fragment: never an out-of-bounds
+   access, provided the integer arrays have one common length (they are given as already broadcast: the C++ ensures it
+   in Slice::become_sealed; without it the statement is false of model and specification,
+   Example Proofs_Safety4.getitem_unbroadcast_arrays_refuted) *)
+Theorem getitem_with_arrays_never_reads_out_of_bounds : forall L items c,
+  arrays_len L items = true -> Valid None c -> nostr c = true -> gi_frag c = true ->
+  getitem_model items c <> Err EOob.
+Proof. exact getitem_never_out_of_bounds_arrays. Qed.
+Print Assumptions getitem_with_arrays_never_reads_out_of_bounds.
+(* (2) the same items on the fragment and under the side conditions of the refinement theorem (Props_C01): neither *)
+Theorem getitem_never_reads_out_of_bounds_partial : forall items c vs,
+  forallb item_ok items = true -> Valid None c -> gfrag c = true -> to_list c = Ok vs ->
+  slice_ok items c = true -> fuel_ok items c = true ->
+  getitem_model items c <> Err EOob /\ getitem_model items c <> Err EFuel.
+Proof. exact getitem_never_out_of_bounds_partial. Qed.
+Print Assumptions getitem_never_reads_out_of_bounds_partial.
+(* (3) one integer array alone: EVERY valid layout with a value (strings, nested option nodes included), neither *)
+Theorem getitem_array_never_reads_out_of_bounds : forall ix c vs,
+  Valid None c -> to_list c = Ok vs ->
+  getitem_model [IArray ix] c <> Err EOob /\ getitem_model [IArray ix] c <> Err EFuel.
+Proof. exact getitem_array_never_out_of_bounds. Qed.
+Print Assumptions getitem_array_never_reads_out_of_bounds.
+Theorem range_slice_never_reads_out_of_bounds : forall c vs a b,
+  Valid None c -> to_list c = Ok vs -> 0 <= a -> a <= b -> b <= clen c -> exists c', crange c a b = Ok c'.
+Proof. exact crange_never_out_of_bounds. Qed.
+Print Assumptions range_slice_never_reads_out_of_bounds.
+
+(* the validity check itself, on ANY layout (valid or not): it always returns a verdict, and the verdict is exact *)
+Theorem validity_check_total_on_any_layout : forall c,
+  (valid_b c = true /\ Valid None c) \/ (valid_b c = false /\ ~ Valid None c).
+Proof. exact validity_check_total_any_layout. Qed.
+Print Assumptions validity_check_total_on_any_layout.
+
+(* reading ANY layout (valid or not) never hangs: a value, [Err EValue], or the checked access refusing ([Err EOob]) *)
+Theorem reading_any_layout_never_hangs : forall c, to_list c <> Err EFuel.
+Proof. exact to_list_never_hangs. Qed.
+Print Assumptions reading_any_layout_never_hangs.
+
+(* type-level functions that can fail, fail with [Err EValue] only *)
+Theorem type_level_functions_fail_cleanly :
+  (forall t d axis, clean (resolve_axis t d axis)) /\
+  (forall unk_ok fchk str_ok t d axis, clean (check_ax unk_ok fchk str_ok t d axis)) /\
+  (forall k c vs, Valid None c -> to_list c = Ok vs -> clean (proj_ty k (type_of c))).
+Proof. exact type_level_functions_clean. Qed.
+Print Assumptions type_level_functions_fail_cleanly.
+
+(* all operations in one statement *)
+Theorem memory_safety_of_all_modelled_operations : forall c vs,
+  Valid None c -> to_list c = Ok vs ->
+  (forall axis, clean (num_model axis c)) /\
+  (forall axis, clean (localindex_model axis c)) /\
+  (forall target axis, clean (rpad_model target axis c)) /\
+  (forall target axis, clean (rpadclip_model target axis c)) /\
+  (forall n repl axis, clean (comb_model n repl axis c)) /\
+  (forall axis, clean (flatten_model axis c)) /\
+  (forall value, clean (fillna_model value c)) /\
+  (forall k, clean (field_content k c)) /\
+  (forall ks, clean (fields_content ks c)) /\
+  (forall k what, clean (setfield_model k c what)) /\
+  (forall r axis mask keepdims, fin c = true -> clean (reduce_model r axis mask keepdims c)) /\
+  (forall asc argsort axis, sort_model asc argsort axis c <> Err EOob /\
+                            (sort_modelled asc argsort axis c = true -> sort_model asc argsort axis c <> Err EFuel)) /\
+  (forall ix, clean (getitem_model [IArray ix] c)) /\
+  (forall L items, arrays_len L items = true -> nostr c = true -> gi_frag c = true -> getitem_model items c <> Err EOob) /\
+  (forall items, forallb item_ok items = true -> gfrag c = true -> slice_ok items c = true -> fuel_ok items c = true ->
+                 clean (getitem_model items c)) /\
+  (forall ix, Forall (fun i => 0 <= i < clen c) ix -> exists c', carry c ix = Ok c') /\
+  (forall a b, 0 <= a -> a <= b -> b <= clen c -> exists c', crange c a b = Ok c').
+Proof. exact memory_safety_of_modelled_operations. Qed.
+Print Assumptions memory_safety_of_all_modelled_operations.
+
+(* purity, as far as it is meaningful in the model: results depend on the type and the value of the input only --
+   two valid layouts with the same type and value (whatever their buffers, encodings, offset origins, unreachable
+   elements) give the same observable result under every operation (fragments of the refinement theorems) *)
+Theorem results_do_not_depend_on_the_buffers : forall a b vs,
+  Valid None a -> Valid None b -> to_list a = Ok vs -> to_list b = Ok vs -> type_of a = type_of b ->
+  (forall ix, Forall (fun i => 0 <= i < zlen vs) ix -> obs (carry a ix) = obs (carry b ix)) /\
+  (forall k, obs (field_content k a) = obs (field_content k b)) /\
+  (forall r axis mask keepdims, fin a = true -> fin b = true ->
+     obs (reduce_model r axis mask keepdims a) = obs (reduce_model r axis mask keepdims b)) /\
+  (forall asc argsort axis, sfrag a = true -> sfrag b = true -> innermost axis (type_of a) = true ->
+     obs (sort_model asc argsort axis a) = obs (sort_model asc argsort axis b)) /\
+  (forall va vb v0s, ffrag a = true -> ffrag b = true -> to_list va = Ok v0s -> to_list vb = Ok v0s ->
+     obs (fillna_model va a) = obs (fillna_model vb b)) /\
+  (forall items, forallb item_ok items = true -> gfrag a = true -> gfrag b = true ->
+     slice_ok items a = true -> fuel_ok items a = true ->
+     obs (getitem_model items a) = obs (getitem_model items b)) /\
+  (frag a = true -> frag b = true ->
+     (forall axis, obs (num_model axis a) = obs (num_model axis b)) /\
+     (forall axis, obs (localindex_model axis a) = obs (localindex_model axis b)) /\
+     (forall target axis, obs (rpad_model target axis a) = obs (rpad_model target axis b)) /\
+     (forall target axis, obs (rpadclip_model target axis a) = obs (rpadclip_model target axis b)) /\
+     (forall n repl axis, obs (comb_model n repl axis a) = obs (comb_model n repl axis b)) /\
+     (forall axis, noempty a = true -> noempty b = true -> obs (flatten_model axis a) = obs (flatten_model axis b))).
+Proof. exact results_depend_only_on_type_and_value. Qed.
+Print Assumptions results_do_not_depend_on_the_buffers.
